@@ -19,3 +19,4 @@ def run(chk):
     clones.rule_const_width(chk, 'N2', floor=100)
     clones.rule_threshold_tests(chk, 'N3', floor=20)
     clones.rule_defuse(chk, 'D1', 'D2', ('aead',), floor=50)
+    clones.rule_tables(chk, 'N5', ('aead',), floor=20)
